@@ -15,6 +15,7 @@ Ranking: the state invariants ▸ they are kept by every function ▸ the descri
 the child ledger (no kill of a foreign pid, every signalled child reaped, no zombie) ▸ the same as count equations. -/
 namespace Pm.Props.C20
 open Pm.Dev2
+open Pm.Dev2.Fd
 
 /-! ## the invariants -/
 
@@ -87,6 +88,8 @@ theorem C20_onRun (k : CS → Oracle → List Out → Option Time → PA) (rest 
     (o : Oracle) (out : List Out) (tmo : Option Time) (left : Time)
     (hk : ∀ c' o' out' tmo', Moves c' (k c' o' out' tmo').1) : Moves c (onRun k rest c a o out tmo left).1 :=
   onRun_moves k rest c a o out tmo left hk
+/-- the hypothesis on `k` is what the induction on the fuel supplies -/
+example (fuel : Nat) : ∀ c' o' out' tmo', Moves c' (processActionF fuel c' o' out' tmo').1 := processActionF_moves fuel
 /-- `_process_action`, every fuel -/
 theorem C20_processActionF (fuel : Nat) (c : CS) (o : Oracle) (out : List Out) (tmo : Option Time) :
     Moves c (processActionF fuel c o out tmo).1 := processActionF_moves fuel c o out tmo
@@ -127,9 +130,14 @@ theorem C20_connectOne_contract (c : CS) (hfd : c.dev.fd = none) (h0 : c.dev.con
     ((connectOne c).2 = false → (connectOne c).1.dev.fd = none ∧ (connectOne c).1.dev.conn = c.dev.conn) :=
   connectOne_contract c hfd h0
 
+example : ({ exDev with conn := 1 } : Dev).fd = none ∧ ({ exDev with conn := 1 } : Dev).conn ≠ 0 := by decide
+
 /-- `tcp_finish_connect_one` with a descriptor held in a state other than NOT_CONNECTED (both call sites) -/
 theorem C20_finishConnectOne_fdInv (c : CS) (hfd : c.dev.fd.isSome = true) (h0 : c.dev.conn ≠ 0) :
     FdInv (finishConnectOne c).1.dev := finishConnectOne_fdInv c hfd h0
+
+example : ({ exDev with conn := 1, fd := some 7 } : Dev).fd.isSome = true ∧ ({ exDev with conn := 1, fd := some 7 } : Dev).conn ≠ 0 := by
+  decide
 
 /-- both keep `ChildInv` on a tcp device -/
 theorem C20_tcp_helpers_childInv (c : CS) (hp : c.dev.isPipe = false) (h : ChildInv c.dev) :
@@ -161,12 +169,20 @@ theorem C20_no_double_close (d : Dev) (env : Env) (o : Oracle) (p r : List Sys) 
     (closed p).count fd < d.fd.toList.count fd + (opened p).count fd :=
   fdRun_close_held p r fd _ _ (h ▸ C20_fd_ledger d env o)
 
+/-- non-vacuity: the hang-up pass on the tcp device starts with `close 2000` -/
+example : ∃ p r, (postPoll exTcp exEnv ⟨[]⟩).1.sys = p ++ Sys.close 2000 :: r := ⟨[], [Sys.socket 2001, Sys.connect 1], rfl⟩
+
 /-- a pass that ends NOT_CONNECTED (with `FdInv`: no descriptor) has closed everything it held or opened -/
 theorem C20_no_descriptor_leak (d : Dev) (env : Env) (o : Oracle) (h : FdInv d) (h0 : (postPoll d env o).1.dev.conn = 0)
     (n : Nat) : (closed (postPoll d env o).1.sys).count n = d.fd.toList.count n + (opened (postPoll d env o).1.sys).count n := by
   have hb := C20_fd_balance d env o n
   have : (postPoll d env o).1.dev.fd = none := (C20_fd_inv_preserved d env o h).mpr h0
   rw [this] at hb; simp at hb; omega
+
+/-- non-vacuity: hang-up, then the new `connect` fails at once — 2000 and the new socket 2001 both closed -/
+example : FdInv exTcp ∧ (postPoll exTcp exEnvFail ⟨[]⟩).1.dev.conn = 0 ∧
+    opened (postPoll exTcp exEnvFail ⟨[]⟩).1.sys = [2001] ∧ closed (postPoll exTcp exEnvFail ⟨[]⟩).1.sys = [2000, 2001] := by
+  unfold FdInv; decide
 
 /-- the ledger for the single functions, in invariant form (the log may already contain earlier calls of the pass) -/
 theorem C20_fd_ledger_steps (c : CS) (tmo : Option Time) (held0 : List Nat)
@@ -177,6 +193,8 @@ theorem C20_fd_ledger_steps (c : CS) (tmo : Option Time) (held0 : List Nat)
     (c.dev.fd.isSome = true → fdRun held0 (handleReady c).1.sys = some (handleReady c).1.dev.fd.toList) :=
   ⟨fun h0 => (connectDev_moves c h0).keeps_all.fdLedger _ h, (disconnectDev_moves c).keeps_all.fdLedger _ h,
    (reconnectDev_moves c tmo).keeps_all.fdLedger _ h, fun hfd => (handleReady_moves c hfd).keeps_all.fdLedger _ h⟩
+
+example : fdRun [2000] ([] : List Sys) = some exTcp.fd.toList := by decide
 
 /-- non-vacuity: hang-up on the connected tcp device — descriptor 2000 closed, 2001 opened and held, nothing aborted -/
 example : opened (postPoll exTcp exEnv ⟨[]⟩).1.sys = [2001] ∧ closed (postPoll exTcp exEnv ⟨[]⟩).1.sys = [2000] ∧
@@ -216,6 +234,11 @@ theorem C20_wait_only_signalled (d : Dev) (env : Env) (o : Oracle) (h : ChildInv
     (waited p).count pid < (killed p).count pid := by
   have := kidRun_wait_signalled p r pid _ _ (hs ▸ C20_child_ledger d env o h)
   simpa using this
+
+/-- non-vacuity: in the hang-up pass on the coprocess device, `kill 5000` follows `close 3000` and `waitpid 5000`
+    follows the `kill` -/
+example : ∃ p r, (postPoll exPipe exEnv ⟨[]⟩).1.sys = p ++ Sys.kill 5000 :: r := ⟨[Sys.close 3000], _, rfl⟩
+example : ∃ p r, (postPoll exPipe exEnv ⟨[]⟩).1.sys = p ++ Sys.waitpid 5000 :: r := ⟨[Sys.close 3000, Sys.kill 5000], _, rfl⟩
 
 /-- the child ledger for the single functions, in invariant form -/
 theorem C20_child_ledger_steps (c : CS) (tmo : Option Time) (k0 : List Nat × List Nat) (hi : ChildInv c.dev)
